@@ -117,7 +117,7 @@ func caseCtor(m *monitor, r *core.Rand) string {
 		case 2:
 			s = fmt.Sprintf("%d.%de%d", r.Intn(100), r.Intn(1000), r.Intn(80)-40)
 		case 3:
-			s = []string{"", "0x10", "1e", "Inf", "-Inf", "+1", " 1", "1_000", "NaN", "0b11", "1e400000000", ".5", "5."}[r.Intn(13)]
+			s = []string{"", "0x10", "1e", "Inf", "-Inf", "+1", " 1", "1_000", "NaN", "0b11", "1e4000", ".5", "5."}[r.Intn(13)]
 		default:
 			s = gen.String(r, 5)
 		}
@@ -233,6 +233,14 @@ func caseCtor(m *monitor, r *core.Rand) string {
 		return "unknownasnull " + gs(v)
 	case 13: // members yielded by iterators and As* accessors of constructed values
 		v := anyValue(r)
+		if u, _ := v.Unmark(); !(u.IsKnown() && !u.IsNull() && (u.Type().IsCollectionType() || u.Type().IsTupleType() || u.Type().IsObjectType())) {
+			ety := anyType(r)
+			cts := []cty.Type{cty.List(ety), cty.Set(ety), cty.Map(ety), cty.Tuple([]cty.Type{ety, cty.String}), cty.Object(map[string]cty.Type{"a": ety, "b": cty.Number})}
+			v = knownValue(r, cts[r.Intn(len(cts))])
+			if r.Chance(1, 4) {
+				v = gen.MarkSome(r, v, 0, 30)
+			}
+		}
 		u, _ := v.Unmark()
 		if u.IsKnown() && !u.IsNull() && (u.Type().IsCollectionType() || u.Type().IsTupleType() || u.Type().IsObjectType()) {
 			m.call("Value.ElementIterator", func() {
@@ -309,8 +317,23 @@ func caseRefine(m *monitor, r *core.Rand) string {
 	var out cty.Value
 	ok := m.call("RefinementBuilder.NewValue", func() {
 		b := base.Refine()
+		bty := base.Type()
 		for k, n := 0, 1+r.Intn(4); k < n; k++ {
-			switch r.Intn(11) {
+			// mostly a method that is legal for the type; sometimes any method (misuse panics and returns nothing)
+			var choice int
+			switch {
+			case r.Chance(1, 8):
+				choice = r.Intn(11)
+			case bty == cty.Number:
+				choice = []int{0, 2, 3, 4, 2, 3}[r.Intn(6)]
+			case bty == cty.String:
+				choice = []int{0, 5, 6, 5}[r.Intn(4)]
+			case bty.IsCollectionType():
+				choice = []int{0, 7, 8, 9}[r.Intn(4)]
+			default:
+				choice = []int{0, 0, 1}[r.Intn(3)]
+			}
+			switch choice {
 			case 0:
 				b = b.NotNull()
 				text += ".NotNull()"
@@ -319,6 +342,9 @@ func caseRefine(m *monitor, r *core.Rand) string {
 				text += ".Null()"
 			case 2:
 				v := gen.Number(r).V
+				if r.Bool() {
+					v = cty.NumberIntVal(int64(r.Intn(6) - 8))
+				}
 				if r.Chance(1, 10) {
 					v = v.Mark(gen.Marks[0])
 				}
@@ -327,11 +353,17 @@ func caseRefine(m *monitor, r *core.Rand) string {
 				b = b.NumberRangeLowerBound(v, inc)
 			case 3:
 				v := gen.Number(r).V
+				if r.Bool() {
+					v = cty.NumberIntVal(int64(r.Intn(6) + 3))
+				}
 				inc := r.Bool()
 				text += fmt.Sprintf(".NumberRangeUpperBound(%s,%v)", gs(v), inc)
 				b = b.NumberRangeUpperBound(v, inc)
 			case 4:
 				lo, hi := gen.SmallNumber(r), gen.SmallNumber(r)
+				if lo.GreaterThan(hi).True() && r.Chance(3, 4) {
+					lo, hi = hi, lo
+				}
 				text += fmt.Sprintf(".NumberRangeInclusive(%s,%s)", gs(lo), gs(hi))
 				b = b.NumberRangeInclusive(lo, hi)
 			case 5:
@@ -343,11 +375,14 @@ func caseRefine(m *monitor, r *core.Rand) string {
 				text += fmt.Sprintf(".StringPrefixFull(%q)", s)
 				b = b.StringPrefixFull(s)
 			case 7:
-				n := r.Intn(5) - 1
+				n := r.Intn(3)
 				text += fmt.Sprintf(".CollectionLengthLowerBound(%d)", n)
 				b = b.CollectionLengthLowerBound(n)
 			case 8:
-				n := r.Intn(5) - 1
+				n := 2 + r.Intn(4)
+				if r.Chance(1, 6) {
+					n = r.Intn(3) - 1
+				}
 				text += fmt.Sprintf(".CollectionLengthUpperBound(%d)", n)
 				b = b.CollectionLengthUpperBound(n)
 			case 9:
